@@ -289,6 +289,13 @@ func workerRun(t *testing.T, job Job, sum *Summary) {
 				rec.NonZero = len(ms.Choices.NZ)
 			}
 			rec.Replay = writeReplay(job.ReplayDir, job.Property, ms, mv, runs, job.Worker)
+		} else {
+			// beyond the minimisation budget of this worker: replayable, not minimised
+			rs := specWithChoices(spec, v)
+			rec.Spec = rs
+			rec.LogHash = v.LogHash
+			rec.NonZero = 1 << 30
+			rec.Replay = writeReplay(job.ReplayDir, job.Property, rs, v, 0, job.Worker)
 		}
 	}
 	// free-mode (-race) runs of this worker's share, in one batch
